@@ -30,18 +30,21 @@ SPEC = dict(
         "no stringprep/case folding is modelled because the code applies none",
         "item payload limited to jid/name/subscription/groups (ask, approved, MIX annotations are parsed by the same code path but not observed)",
         "key order of the maps is not modelled (observations are sorted); driver-side display sorts and de-duplicates groups like QSet",
-        "session-level exactness is proved only for histories without a `disconnected` signal under NoStreamManagement since the "
-        "session began (see C12_defect_* and the two known findings)",
+        "session-level exactness (session_view_exact) is proved at connected moments under the environment assumption "
+        "resumesContinueSmSession: a resumed connect continues the latest session and that session had stream management "
+        "(session_view_needs_assumption proves the assumption cannot be dropped); the harness generates resumptions only then",
     ],
     level_text="Theorems for every history: contact list = last full roster of the session with later authorised pushes applied in order "
                "(roster_refines_spec), isRosterReceived exact, presence table exact incl. stored status (presence_table_exact), no duplicate "
                "keys, foreign roster IQ = no state change, no signal, no result (step and whole-history form), authorised push applied and "
                "acknowledged exactly once, nothing survives a non-resumed connect (direct and non-interference form), view kept across "
-               "resumption; session-level exactness as a partial theorem plus two defect theorems with a machine-checked witness. Model tied "
+               "resumption, a `disconnected` outside an established session changes nothing; session-level exactness (property's own session "
+               "boundaries) for every history under one named environment assumption, shown necessary. Model tied "
                "to the real manager+client by exhaustive and random correspondence; the property is also evaluated directly on the "
                "implementation by a reference fold over the history.",
     level_note="Proved about the hand-written model; the model-to-code tie is differential (exhaustive to depth 5/6 (roster) and 6/7 (presence) over compact alphabets, "
-               "sampled to length 50). Session-level reading holds only partially on today's code (two recorded findings).",
+               "sampled to length 50). The two earlier findings (cache wiped by a failed reconnect attempt before a resumption) are fixed in "
+               "repo commit fd7e86c; their oracle keys and witness history stay in the harness.",
     design_ref="5.12",
     technique="Lean 4 refinement proof (incremental cache = declarative fold over the event history) + invariants + model/implementation correspondence",
 )
